@@ -210,3 +210,16 @@ CLAIMED['C17'] = (
     '(3,2),(3,3) incl. equal/complementary outputs; don\'t-care lookups against all completions on both shipped databases.',
     NOTE_COMMON + 'The sweep over the shipped entries is an execution (compiled Lean + CPython), not a kernel proof. Don\'t-care minimality: search oracle only.',
     'Lean 4 proof (permutation / mapping / negation inverses) + field-exact correspondence + exhaustive execution over the shipped tables')
+CLAIMED['C04'] = (
+    'DESIGN.md 5/C04',
+    'Theorems for the parts of the algorithm that are logic: the leaf patterns of _generate_inputs_tt enumerate every leaf assignment '
+    '(bit i of leaf j = bit j of i, any cut size); _PatternOperations.eval_pattern is the gate\'s Boolean function bit by bit for every '
+    'supported type at every accepted arity (n-ary AND/OR/XOR and negations included); the replacement cone returned by exact synthesis '
+    'has size-1 gates of the basis and agrees with every table entry that is not a don\'t-care (C06 soundness). The pattern primitives '
+    'are compared with the code on every run. The whole of minimize_subcircuits is decided on every run by the search on the real '
+    'code: random circuits over the supported gate set incl. n-ary gates, repeated outputs, outputs that are inputs, dead logic and '
+    'asymmetrically correlated cut leaves x bases x parameter settings x admissible cut families (canonical, sub-families filtered '
+    'during enumeration as cut_limit does, shuffled orders) — truth table, interface, non-trivial gate count, enable_validation.',
+    NOTE_COMMON + 'PARTIAL: don\'t-care extraction, trivial-output shortcut, splice and driver loop are not proved (set-iteration-order dependent '
+    'code, not modelled as a whole). mockturtle and pysat are shims. One open known finding (dead logic).',
+    'Lean 4 proof (bit-level lemmas for the pattern simulation, C06 soundness) + correspondence of the pattern primitives + search oracle on the real algorithm')
